@@ -10,7 +10,7 @@ CHECKS = {
         rule='explicit-state BFS to a fixpoint over the product (real reader, reference cursor); a case = one (source, backend) pair; '
              'a state = reader private state + model position; every operation of the boundary-valued alphabet is applied in every reachable state',
         bounds={'quick': '10 sources (len 0..10) x 5 backends (memory, memory slice, file slice, slice of slice, slice-at-position); ~330 op instances per state; fixpoint',
-                'thorough': 'same as quick (the state graphs are small and explored to a fixpoint at both tiers)'},
+                'thorough': 'adds every source of length <= 3 over the bytes {00,01,02,7F,80,FF} (259 sources) and two sources of 16 and 20 bytes, each on all 5 backends, fixpoint'},
         must_hit={'any': ['read/in-bounds', 'read/out-of-bounds', 'read/wraps-64-bit', 'readpartial/short', 'readpartial/full', 'peek/in-bounds',
                           'peek/out-of-bounds', 'seek/in-bounds', 'seek/out-of-bounds', 'typed/prefixed-ok', 'typed/prefixed-reject',
                           'typed/cstr-ok', 'typed/cstr-reject', 'slice/contained', 'slice/not-contained', 'slice/wraps-64-bit']},
@@ -23,11 +23,11 @@ CHECKS['C13'] = dict(
     src='checks/c13_slices.cpp',
     runs=[dict(cfg='asan')],
     technique='small-scope exhaustive construction grid + joint explicit-state BFS over several live readers + lock-step BFS across five backends',
-    level_text='(a) every (start,length) boundary pair incl. 2^63, 2^64-1, 2^64-start at every parent position, both Slice forms, nested to depth 3, on memory readers, file readers and file slices: accepted iff contained (128-bit arithmetic), the slice exposes exactly its window, refusal leaves the parent untouched; (b) the joint state graph of parent + two overlapping slices + a copy + a nested slice under 7 operations each is explored to a fixpoint in memory and to a depth bound on files, and two member streams of a VolFile/ClmFile are interleaved with archive calls: every object must follow its own reference cursor; (c) all in-bounds histories (fixpoint) are driven in lock-step over memory, file, slice-of-memory, slice-of-file and slice-of-slice and must give identical bytes, positions and lengths.',
-    level_note='Trusts g++/libstdc++/ASan and tmpfs. Parent lengths 0,1,4,6; file-backed joint graphs are depth-bounded (4 quick / 6 thorough) because each transition replays its history on freshly opened files.',
+    level_text='(a) every (start,length) boundary pair incl. 2^63, 2^64-1, 2^64-start at every parent position, both Slice forms, nested to depth 3, on memory readers, file readers and file slices: accepted iff contained (128-bit arithmetic), the slice exposes exactly its window, refusal leaves the parent untouched; (b) the joint state graph of parent + two overlapping slices + a copy + a nested slice under 7 operations each is explored to a fixpoint in memory and on files, and two member streams of a VolFile/ClmFile are interleaved with archive calls: every object must follow its own reference cursor; (c) all in-bounds histories (fixpoint) are driven in lock-step over memory, file, slice-of-memory, slice-of-file and slice-of-slice and must give identical bytes, positions and lengths.',
+    level_note='Trusts g++/libstdc++/ASan and tmpfs. Parent lengths 0,1,4,6 (thorough also 2,3,8); all joint graphs incl. the file-backed ones reach their fixpoints (each transition replays its history on freshly opened files).',
     rule='case = one construction grid (backend x parent length), one joint system, or one lock-step system; states = distinct product states / accepted slices; transitions = operations executed and compared',
-    bounds={'quick': 'grid: 3 backends x parent lengths {0,1,4,6} x all positions x ~12x11 (start,len) pairs x depth 3; joint: memory fixpoint, file/VOL/CLM depth 4; equivalence: lengths {0,1,3,5} fixpoint',
-            'thorough': 'as quick with file/VOL/CLM joint depth 6'},
+    bounds={'quick': 'grid: 3 backends x parent lengths {0,1,4,6} x all positions x ~12x11 (start,len) pairs x depth 3; joint: memory fixpoint, file/VOL/CLM fixpoint; equivalence: lengths {0,1,3,5} fixpoint',
+            'thorough': 'construction grid on parent lengths {0,1,2,3,4,6,8}; joint and equivalence systems as quick (they are explored to their fixpoints at both tiers)'},
     must_hit={'any': ['grid/accepted', 'grid/refused-by-wrap', 'grid/refused-out-of-range', 'interleaving/edges', 'interleaving/archive-cases', 'equivalence/edges', 'equivalence/partial-read-past-end']},
     assumptions=['archives for the member-stream interleavings are produced by the library itself (their format is checked in C01-C03)'],
 )
@@ -36,11 +36,11 @@ CHECKS['C14'] = dict(
     src='checks/c14_writers.cpp',
     runs=[dict(cfg='asan')],
     technique='explicit-state BFS to a fixpoint over (writer private state, buffer bytes, reference vector) plus small-scope exhaustive products for prefixes, stream copies and open flags',
-    level_text='MemoryWriter: all histories of any length over Write/typed writes/Seek* with boundary arguments (0,1,rem-1,rem,rem+1,len,2^31,2^32,2^63,2^64-pos,2^64-1) on exact-size heap buffers of length 0,1,2,4 (quick) / 0..5 (thorough), explored to a fixpoint with position, length and the complete buffer compared to a reference vector after every edge (ASan catches any byte written outside). DynamicMemoryWriter: same with the content length capped. Size prefixes: every prefix type x sizes {0,1,2,max-1,max,max+1,max+2} x three container types, refusal iff too large, exact little-endian encoding, Read<S> is the inverse. Stream copy: full product of 8 chunk sizes x 21+ source lengths around every chunk boundary x start positions x 5 reader backends x 3 writer kinds. FileWriter: all 16 flag values x file exists/absent x directory exists/absent, disk content compared.',
+    level_text='MemoryWriter: all histories of any length over Write/typed writes/Seek* with boundary arguments (0,1,rem-1,rem,rem+1,len,2^31,2^32,2^63,2^64-pos,2^64-1) on exact-size heap buffers of length 0,1,2,4 (quick) / 0..6 (thorough), explored to a fixpoint with position, length and the complete buffer compared to a reference vector after every edge (ASan catches any byte written outside). DynamicMemoryWriter: same with the content length capped. Size prefixes: every prefix type x sizes {0,1,2,max-1,max,max+1,max+2} x three container types, refusal iff too large, exact little-endian encoding, Read<S> is the inverse. Stream copy: full product of 8 chunk sizes x 21+ source lengths around every chunk boundary x start positions x 5 reader backends x 3 writer kinds. FileWriter: all 16 flag values x file exists/absent x directory exists/absent, disk content compared.',
     level_note='Trusts g++/libstdc++/ASan, tmpfs. Weaker readings: a refused size-prefixed write may already have emitted the prefix; for open modes with neither Truncate nor Append only the existence rules are asserted; directory creation as a side effect of a refused open is not judged.',
     rule='case = one BFS (buffer length) or one product family; states = distinct product states; transitions = writer operations executed and compared',
     bounds={'quick': 'MemoryWriter n in {0,1,2,4} fixpoint; DynamicMemoryWriter length cap 4 (with and without preallocation); copy chunk sizes {1,2,3,4,7,8,16,131072}',
-            'thorough': 'MemoryWriter n in {0,1,2,3,4,5} fixpoint; DynamicMemoryWriter cap 6; rest as quick'},
+            'thorough': 'MemoryWriter n in {0,..,6} fixpoint (n=6: about 2.4 M states, one case of about 10 min); DynamicMemoryWriter cap 6; rest as quick'},
     must_hit={'any': ['memwriter/write-fits', 'memwriter/write-wraps', 'memwriter/write-too-big', 'memwriter/seek-fits', 'memwriter/seek-refused', 'dynwriter/append', 'dynwriter/write-wraps',
                       'dynwriter/zero-fill', 'dynwriter/truncate', 'dynwriter/refusals', 'prefix/too-large-refused', 'prefix/fits', 'typed/inverse', 'copy/multi-chunk', 'copy/single-chunk',
                       'filewriter/invalid-flags', 'filewriter/existing-not-allowed', 'filewriter/new-not-allowed', 'filewriter/truncate-or-new', 'filewriter/append-existing']},
@@ -129,11 +129,11 @@ CHECKS['C06'] = dict(
     src='checks/c06_map_roundtrip.cpp',
     runs=[dict(cfg='asan')],
     technique='small-scope exhaustive enumeration of well-formed maps (reference serializer) + explicit-state BFS over public edit histories in lock-step with a reference map',
-    level_text='Well-formed maps are generated by the independent ref_map serializer over 12 dimensions (log-width 0,1,2,5,6,10; height 0..3; tile bits; saved-game word 0,1,2,0x100,2^32-1; version tags incl. 2^31-1 and 2^32-1; clip rectangles incl. INT_MIN/INT_MAX; 7 tileset-source patterns with empty and non-empty names; 0..2 mappings and terrain types; 7 tile-group patterns incl. zero-area groups; undocumented word; trailing bytes): quick = base + all single and pair deviations (685 maps), thorough = full product of the six structural dimensions x data dimensions with <=2 deviations (1.46 M maps). For each: ReadMap accepts, every field equals the reference, Write equals the predicted bytes (consumed bytes with the flag normalised to 0/1, undocumented word regenerated, trailing dropped), re-read is equal in every field (public and private), second Write is byte-identical. Edit histories: from four seeds (32x2, 64x2, with/without empty tileset sources) every history up to depth 3 (thorough 4) over SetCellType (4 values x 5-6 positions incl. the 32-column block boundary), SetLavaPossible, SetVersionTag (incl. a tag below the minimum) and TrimTilesetSources: after every edit the serialised map must equal the reference map with the same edit applied, and re-read must succeed iff the tag is >= 0x1010.',
+    level_text='Well-formed maps are generated by the independent ref_map serializer over 12 dimensions (log-width 0,1,2,5,6,10; height 0..3; tile bits; saved-game word 0,1,2,0x100,2^32-1; version tags incl. 2^31-1 and 2^32-1; clip rectangles incl. INT_MIN/INT_MAX; 7 tileset-source patterns with empty and non-empty names; 0..2 mappings and terrain types; 7 tile-group patterns incl. zero-area groups; undocumented word; trailing bytes): quick = base + all single and pair deviations (685 maps), thorough = full product of the six structural dimensions x data dimensions with <=2 deviations (1.46 M maps). For each: ReadMap accepts, every field equals the reference, Write equals the predicted bytes (consumed bytes with the flag normalised to 0/1, undocumented word regenerated, trailing dropped), re-read is equal in every field (public and private), second Write is byte-identical; the file-name overloads of ReadMap/Write give the same map and the same bytes. Edit histories: from four seeds (32x2, 64x2, with/without empty tileset sources) every history up to depth 3 (thorough 4) over SetCellType (4 values x 5-6 positions incl. the 32-column block boundary), SetLavaPossible, SetVersionTag (incl. a tag below the minimum) and TrimTilesetSources: after every edit the serialised map must equal the reference map with the same edit applied, and re-read must succeed iff the tag is >= 0x1010.',
     level_note='Trusts ref_map (120 lines) and g++/ASan/UBSan. Un-normalised variants (flag 2, foreign undocumented word) may be rejected by the reader without a violation (counted). Tile groups whose width*height overflows 32 bits and maps beyond 1024x3 are not enumerated.',
     rule='state = one well-formed map / one (map, reference) product state; transitions = read/write calls and edits compared',
     bounds={'quick': '685 maps (deviation<=2 over 12 dimensions); edit depth 3 on 4 seeds', 'thorough': '1.46 M maps; edit depth 4'},
-    must_hit={'any': ['accept/writer-form', 'accept/with-trailing-bytes', 'shape/width-1', 'shape/height-0', 'shape/zero-area-group', 'shape/empty-source-name', 'edit/edges', 'edit/low-version-tag-written']},
+    must_hit={'any': ['accept/writer-form', 'accept/with-trailing-bytes', 'shape/width-1', 'shape/height-0', 'shape/zero-area-group', 'shape/empty-source-name', 'edit/edges', 'edit/low-version-tag-written', 'file-overloads/round-trips']},
     assumptions=['TrimTilesetSources removes sources with an empty name or zero tiles (as the test suite documents)'],
 )
 
@@ -165,11 +165,11 @@ CHECKS['C08'] = dict(
     src='checks/c08_bitmap.cpp',
     runs=[dict(cfg='asan')],
     technique='small-scope exhaustive enumeration of accepted bitmap files (independent encoder) and factory parameter triples, executed on the real reader/writer',
-    level_text='For depth 1, 4, 8 x every width 0..66 (every residue of row bits mod 32 for every depth; thorough adds 127..129, 1023..1025) x every height -3..3 (thorough +-31..33) x four palette forms (full, 1 entry, 2^d-1, 2^d used colours) x important-colour count 0/1, with non-zero bytes in the file row padding: ReadIndexed accepts, Validate passes, width >= 0, pixel size = pitch x |height| with the pitch computed independently, palette <= 2^d entries; the written file parses under the strict ref_bmp decoder with zero row padding and consistent headers; write -> read preserves width, signed height, depth, every palette entry that was read and every pixel byte inside the meaningful row width; InvertScanLines reverses the rows and negates the height and twice restores the original. The factory functions (three overloads) round-trip to an equal object on the same (depth, width, height) grid; unsupported depths are refused. Headers with negative width whose size cross-check holds modulo 2^64 must not be accepted.',
+    level_text='For depth 1, 4, 8 x every width 0..66 (every residue of row bits mod 32 for every depth; thorough: every width 0..130 plus 255..257, 1023..1025, 4095, 4097) x every height -3..3 (thorough also +-4, 5, 8, 9, 31, 32, 33) x four palette forms (full, 1 entry, 2^d-1, 2^d used colours) x important-colour count 0/1, with non-zero bytes in the file row padding: ReadIndexed accepts, Validate passes, width >= 0, pixel size = pitch x |height| with the pitch computed independently, palette <= 2^d entries; the written file parses under the strict ref_bmp decoder with zero row padding and consistent headers; write -> read preserves width, signed height, depth, every palette entry that was read and every pixel byte inside the meaningful row width; InvertScanLines reverses the rows and negates the height and twice restores the original. The factory functions (three overloads) round-trip to an equal object on the same (depth, width, height) grid; unsupported depths are refused. Headers with negative width whose size cross-check holds modulo 2^64 must not be accepted.',
     level_note='Trusts ref_bmp (100 lines), g++/ASan/UBSan. Weaker reading: after a round trip a partial palette may have grown to full length as long as the entries that were read are unchanged.',
     rule='state = one accepted file or factory triple; transitions = read/write/flip calls judged',
-    bounds={'quick': '3 depths x 67 widths x 7 heights x 4 palette forms x 2; factory 3 x 67 x 7 x 3 overloads', 'thorough': 'adds 6 large widths and 6 large heights'},
-    must_hit={'any': ['accepted/full-palette', 'accepted/partial-palette', 'accepted/top-down', 'accepted/empty-image', 'factory/round-trips', 'factory/unsupported-depths', 'negative-width/wrap-consistent-headers']},
+    bounds={'quick': '3 depths x 67 widths x 7 heights x 4 palette forms x 2; factory 3 x 67 x 7 x 3 overloads', 'thorough': '139 widths x 21 heights'},
+    must_hit={'any': ['accepted/full-palette', 'accepted/partial-palette', 'accepted/top-down', 'accepted/empty-image', 'file-overloads/round-trips', 'factory/round-trips', 'factory/unsupported-depths', 'negative-width/wrap-consistent-headers']},
     assumptions=[],
 )
 
@@ -193,7 +193,7 @@ CHECKS['C10'] = dict(
     level_note='Trusts ref_prt (100 lines) and g++/ASan/UBSan. Structures with more than 2 palettes/images/animations/frames are not enumerated.',
     rule='state = one well-formed file / one violating structure / one corrupted file; transitions = Read/Write calls judged',
     bounds={'quick': 'deviation<=3 over 12 dimensions; 60 writer refusals; level-1 faults on 2 seeds', 'thorough': 'deviation<=5'},
-    must_hit={'any': ['roundtrip/canonical-input-reproduced', 'roundtrip/non-canonical-headers-canonicalised', 'frames/both-optional-flags', 'frames/one-optional-flag', 'frames/no-optional-flag', 'frames/127-layers', 'frames/0-layers', 'writer-refusals/attempts', 'corruption/rejected', 'corruption/accepted']},
+    must_hit={'any': ['roundtrip/canonical-input-reproduced', 'roundtrip/non-canonical-headers-canonicalised', 'frames/both-optional-flags', 'frames/one-optional-flag', 'frames/no-optional-flag', 'frames/127-layers', 'frames/0-layers', 'file-overloads/round-trips', 'writer-refusals/attempts', 'corruption/rejected', 'corruption/accepted']},
     assumptions=[],
 )
 
